@@ -45,7 +45,7 @@ func GenFaultRules(t *rapid.T, label string) []FaultRule {
 }
 
 // ShimGenNote describes what every GenShimCase history draws besides its operations.
-const ShimGenNote = " Signatures are also asked of signers the caller kept from an earlier Signers() call of the same history (operation signheld; judged like any other signature). Every history draws 1..6 certificates (a sixth of the later ones a twin of an earlier one: same key, serial, type and KeyID, other principals) and the shim's listing-order option PubKeyComp (default, by bytes, by type, by fingerprint)."
+const ShimGenNote = " A third of the sign operations name their target as an *agent.Key (format and blob, as a listing hands it out) instead of a parsed object. Signatures are also asked of signers the caller kept from an earlier Signers() call of the same history (operation signheld; judged like any other signature). Every history draws 1..6 certificates (a sixth of the later ones a twin of an earlier one: same key, serial, type and KeyID, other principals) and the shim's listing-order option PubKeyComp (default, by bytes, by type, by fingerprint)."
 
 // GenShimCase draws a shim history.
 func GenShimCase(t *rapid.T, pr ShimProfile) ShimCase {
@@ -141,6 +141,9 @@ func GenShimCase(t *rapid.T, pr ShimProfile) ShimCase {
 				op.Flags = rapid.SampledFrom([]int{0, 2, 4}).Draw(t, l+"Flags")
 			}
 			op.Data = rapid.SliceOfN(rapid.Byte(), 0, 64).Draw(t, l+"Data")
+			if op.Kind == "sign" {
+				op.AsAgentKey = rapid.IntRange(0, 2).Draw(t, l+"AsAgentKey") == 1
+			}
 		case "addkey", "oobadd":
 			op.Key = rapid.SampledFrom(SSHKeyNames).Draw(t, l+"Key")
 			op.Comment = comment(l + "C")
